@@ -129,6 +129,21 @@ def run_impl(ctx, tabs, nranks):
         shutil.rmtree(wd, ignore_errors=True)
 
 
+def run_impl_parallel(ctx, jobs, workers=6, chunk=120):
+    """jobs: list of (tabs, nranks).  Runs them in chunks, several at a time; returns one output list per job."""
+    from concurrent.futures import ThreadPoolExecutor
+    pieces = []
+    for ji, (tabs, nranks) in enumerate(jobs):
+        for a in range(0, len(tabs), chunk):
+            pieces.append((ji, a, tabs[a:a + chunk], nranks))
+    with ThreadPoolExecutor(max_workers=workers) as ex:
+        res = list(ex.map(lambda pc: run_impl(ctx, pc[2], pc[3]), pieces))
+    outs = [[] for _ in jobs]
+    for (ji, a, _, _), r in zip(pieces, res):      # pieces are in order within a job
+        outs[ji].extend(r)
+    return outs
+
+
 # ------------------------------------------------------------------ literals for Coq
 
 def xz_lit(v):
@@ -329,14 +344,14 @@ def correspondence(ctx):
     ranks = [R.choice([2, 3, 4]) for _ in range(n)]
     ctx.c06 = []          # (tab, P, res) for the search phase
     try:
-        out1 = run_impl(ctx, tabs + EDGE_TABLES, 1)
+        idxs = {P: [i for i in range(n) if ranks[i] == P] for P in (2, 3, 4)}
+        res = run_impl_parallel(ctx, [(tabs + EDGE_TABLES, 1)] + [([tabs[i] for i in idxs[P]], P) for P in (2, 3, 4)])
+        out1 = res[0]
         outs = {1: out1[:n]}
         edge_out = out1[n:]
         multi = {}
-        for P in (2, 3, 4):
-            idx = [i for i in range(n) if ranks[i] == P]
-            o = run_impl(ctx, [tabs[i] for i in idx], P)
-            for i, r in zip(idx, o):
+        for P, o in zip((2, 3, 4), res[1:]):
+            for i, r in zip(idxs[P], o):
                 multi[i] = r
     except Exception as e:
         rep.fail("broken-correspondence", "implementation driver failed: %s" % e, "C06:impl-driver", theorem="combine_main tie")
@@ -362,16 +377,19 @@ def correspondence(ctx):
                      input=tab, theorem="join of per-rank files")
             break
     # model vs implementation, sharded
-    shard = 1000
+    shard = 700
     nbad = 0
-    for a in range(0, len(cases), shard):
+    from concurrent.futures import ThreadPoolExecutor
+    starts = list(range(0, len(cases), shard))
+    try:
+        with ThreadPoolExecutor(max_workers=5) as ex:
+            shard_res = list(ex.map(lambda a: coq_compare(cases[a:a + shard]), starts))
+    except Exception as e:
+        rep.fail("broken-correspondence", "model evaluation / literal conversion failed: %s" % str(e)[-1200:], "C06:coq-eval",
+                 theorem="combine_main tie")
+        return
+    for a, (failing, exps) in zip(starts, shard_res):
         chunk = cases[a:a + shard]
-        try:
-            failing, exps = coq_compare(chunk)
-        except Exception as e:
-            rep.fail("broken-correspondence", "model evaluation / literal conversion failed: %s" % str(e)[-1200:], "C06:coq-eval",
-                     theorem="combine_main tie")
-            return
         for k in failing:
             nbad += 1
             if nbad <= 3:
@@ -480,20 +498,28 @@ def spec_check(tab, res):
             bad.append((key, "some description length is finite but the relative probabilities are not non-negative numbers summing to one "
                         "(smallest description length %r)" % dmin, pre, "non-negative, sum 1"))
         else:
-            i0 = None
+            w = []
+            for f in fin:
+                try:
+                    w.append(math.exp(-(f["dl"] - dmin)))
+                except OverflowError:
+                    w.append(float("inf"))
+            nodup = []
             for i, f in enumerate(fin):
-                dup = any(fin[k]["nll"] == f["nll"] for k in range(i))
-                if dup:
+                if any(fin[k]["nll"] == f["nll"] for k in range(i)):
                     if f["prel"] != 0.0:
                         bad.append(("C06:prel:duplicate", "row %d repeats an earlier likelihood but has Prel %r" % (i, f["prel"]), f["prel"], 0.0))
-                    continue
-                if i0 is None:
-                    i0 = i
-                want = math.exp(-(f["dl"] - dmin)) * fin[i0]["prel"] / math.exp(-(fin[i0]["dl"] - dmin))
-                if abs(f["prel"] - want) > 1e-12:
-                    bad.append(("C06:prel:proportional", "row %d: Prel is not proportional to exp(-(DL-DLmin))" % i, f["prel"], want))
-            if i0 != 0 and fin:
-                bad.append(("C06:prel:duplicate", "row 0 was treated as a duplicate", i0, 0))
+                else:
+                    nodup.append(i)
+            if 0 not in nodup and fin:
+                bad.append(("C06:prel:duplicate", "row 0 was treated as a duplicate", nodup[:1], 0))
+            ref = [i for i in nodup if 0.0 < w[i] < float("inf")]
+            c = fin[ref[0]]["prel"] / w[ref[0]] if ref else 0.0
+            for i in nodup:
+                want = c * w[i] if w[i] == w[i] and w[i] != float("inf") else float("nan")
+                if not abs(fin[i]["prel"] - want) <= 1e-12:
+                    bad.append(("C06:prel:proportional", "row %d: Prel is not proportional to exp(-(DL-DLmin))" % i, fin[i]["prel"], want))
+                    break
     return bad
 
 
@@ -507,7 +533,7 @@ def search(ctx):
     tabs.append({"U": 2, "npar": 1, "s": 1, "rows": [[1, 2, 0, 3, [0]]]})
     tabs.append({"U": 3, "npar": 1, "s": 1, "rows": [[NINF, 2, 0, 3, [0]], [1, 2, 1, 3, [1]], [2, 2, 2, 3, [2]]]})
     try:
-        outs = run_impl(ctx, tabs, 1)
+        outs = run_impl_parallel(ctx, [(tabs, 1)])[0]
         done += [(t, 1, o) for t, o in zip(tabs, outs)]
     except Exception as e:
         rep.fail("broken-correspondence", "search driver failed: %s" % e, "C06:search-driver", theorem="search")
